@@ -154,19 +154,38 @@ class ExprMixin:
         return ("classattr", owner.qual, name)
 
     def functable(self, t):
-        """{constant key: FuncInfo} for a class attribute written as a dict display of constants to functions of that class
-        (a dispatch table), else None."""
+        """{constant key: term} for a class attribute written as a dict display from constants to functions of that class, classes
+        of the program, constants, or tuples of those (a dispatch table); else None."""
         owner = self.prog.classes.get(t[1])
         expr = owner.attrs.get(t[2]) if owner is not None else None
         if not isinstance(expr, ast.Dict) or not expr.keys:
             return None
+
+        def val(v):
+            if isinstance(v, ast.Name) and v.id in owner.methods:
+                return ("func", owner.methods[v.id])
+            if isinstance(v, ast.Name):
+                r = self.prog.resolve(owner.module, v.id)
+                if r and r[0] == "class":
+                    return ("cls", r[1])
+                if r and r[0] == "func":
+                    return ("func", r[1])
+            if isinstance(v, ast.Tuple):
+                xs = [val(x) for x in v.elts]
+                return None if any(x is None for x in xs) else ("tuple", tuple(xs))
+            ok, c = self.prog.try_fold(v, owner.module, owner, class_body=True)
+            return const(c) if ok and not isinstance(c, (dict, list)) else None
         out = {}
+        plain = True
         for k, v in zip(expr.keys, expr.values):
-            okk, kv = self.prog.try_fold(k, owner.module, owner) if k is not None else (False, None)
-            if not okk or not isinstance(v, ast.Name) or v.id not in owner.methods:
+            okk, kv = self.prog.try_fold(k, owner.module, owner, class_body=True) if k is not None else (False, None)
+            tv = val(v)
+            if not okk or tv is None:
                 return None
-            out[kv] = owner.methods[v.id]
-        return out
+            if not is_const(tv):
+                plain = False
+            out[kv] = tv
+        return None if plain else out
 
     def get_attr(self, base, attr, st, fx, node):
         key = (base, attr)
@@ -374,27 +393,31 @@ class ExprMixin:
         tab = self.functable(base)
         if is_const(key):
             if key[1] in tab:
-                yield "ok", ("func", tab[key[1]]), st
+                yield "ok", tab[key[1]], st
             elif subscript:
                 yield "raise", self.exc(st, "KeyError", key), st
             else:
                 yield "ok", dflt if dflt is not None else NONE, st
             return
-        s_miss = st.fork()
-        self.emit(s_miss, fx, "CONSTMAP", node, obj=base, key=key, hit=False, how="functable")
-        for k in tab:
-            self.assume(("cmp", "==", key, const(k)), False, s_miss)
-        if subscript:
-            yield "raise", self.exc(s_miss, "KeyError", key), s_miss
-        else:
-            yield "ok", dflt if dflt is not None else NONE, s_miss
+        known = {k: self.truth(("cmp", "==", key, const(k)), st) for k in tab}
+        if not any(v is True for v in known.values()):
+            s_miss = st.fork()
+            self.emit(s_miss, fx, "CONSTMAP", node, obj=base, key=key, hit=False, how="functable")
+            for k in tab:
+                self.assume(("cmp", "==", key, const(k)), False, s_miss)
+            if subscript:
+                yield "raise", self.exc(s_miss, "KeyError", key), s_miss
+            else:
+                yield "ok", dflt if dflt is not None else NONE, s_miss
         for k, f in tab.items():
+            if known[k] is False or (any(v is True for v in known.values()) and known[k] is not True):
+                continue       # the path already knows the key is not this one
             s_k = st.fork()
-            self.emit(s_k, fx, "CONSTMAP", node, obj=base, key=key, hit=True, kval=k, val=f.qual, how="functable")
+            self.emit(s_k, fx, "CONSTMAP", node, obj=base, key=key, hit=True, kval=k, val=show(f), how="functable")
             c = ("cmp", "==", key, const(k))
             s_k.conds = s_k.conds + (Cond(c, True, fx.func.file, getattr(node, "lineno", 0), "%s == %r" % (show(key), k)),)
             self.assume(c, True, s_k)
-            yield "ok", ("func", f), s_k
+            yield "ok", f, s_k
 
     # ---- operators -------------------------------------------------------
     def binop(self, opname, a, b):
@@ -526,6 +549,13 @@ class ExprMixin:
                     s2.conds = saved
                     if r2 == "raise":
                         yield r2, b, s2
+                    elif all(isinstance(x, tuple) and x and x[0] in ("bm", "func", "closure", "partial", "lambda", "cls") for x in (a, b)):
+                        # a choice between two callables (A if c else B)(..): the call goes one way or the other
+                        for pol, val in ((True, a), (False, b)):
+                            s3 = s2.fork()
+                            s3.conds = saved + (Cond(t, pol, fx.func.file, n.lineno, text),)
+                            self.assume(t, pol, s3)
+                            yield "ok", val, s3
                     else:
                         yield "ok", ("ifexp", a, b), s2
 
@@ -768,6 +798,27 @@ class ExprMixin:
                 yield "ok", None, s
                 continue
             text = ast.unparse(test)
+            if isinstance(t, tuple) and t[0] == "cmp" and t[1] in ("in", "not in") and isinstance(t[3], tuple) and t[3] and t[3][0] == "functable":
+                # membership among the keys of a dispatch table: one of them, or none
+                tab = self.functable(t[3])
+                key = t[2]
+                for k in list(tab) + [None]:
+                    s2 = s.fork()
+                    if k is None:
+                        for k2 in tab:
+                            self.assume(("cmp", "==", key, const(k2)), False, s2)
+                        pol = t[1] == "not in"
+                    else:
+                        if self.truth(("cmp", "==", key, const(k)), s2) is False:
+                            continue
+                        self.assume(("cmp", "==", key, const(k)), True, s2)
+                        for k2 in tab:
+                            if k2 != k:
+                                self.assume(("cmp", "==", key, const(k2)), False, s2)
+                        pol = t[1] == "in"
+                    s2.conds = s2.conds + (Cond(t, pol, fx.func.file, test.lineno, text),)
+                    yield "ok", pol, s2
+                continue
             if isinstance(t, tuple) and t[0] == "cmp" and t[1] in ("in", "not in") and isinstance(t[3], tuple) and t[3] and t[3][0] == "reg":
                 # membership of a key in a registry: a lookup that hits or misses; after a hit the entry is known to be there
                 reg, addr, key = t[3][1], t[3][2], t[2]
